@@ -314,7 +314,7 @@ struct Obs {
 }
 
 fn observe(s: &Scenario, r: &RunResult) -> Obs {
-    let json = s.argv.iter().any(|a| a == "json");
+    let json = s.argv.iter().any(|a| a.eq_ignore_ascii_case("json"));
     let diags = parse_diagnostics(&r.stderr, json);
     let meta: Meta15 = serde_json::from_value(s.meta.clone()).unwrap_or_default();
     let reply_paths = crate::hostcase::reply_paths_of(&r.trace);
